@@ -178,7 +178,57 @@ func genSched(rng *rand.Rand, p *world.Produced, id, chain int, shape string) Sc
 			a.DA = append(a.DA, world.Item{D: u.data, I: u.i})
 		}
 		daUnits = daUnits[k:]
-		daActs = append(daActs, a)
+		if rng.Intn(4) == 0 {
+			// the node is stopped right after a scan over several fresh DA heights, while events of any of them
+			// may still sit in the hand-off channels
+			a.NoBarrier = true
+			for extra := rng.Intn(4); extra > 0 && len(daUnits) > 0; extra-- {
+				k := 1 + rng.Intn(3)
+				if k > len(daUnits) {
+					k = len(daUnits)
+				}
+				var more []world.Item
+				for _, u := range daUnits[:k] {
+					more = append(more, world.Item{D: u.data, I: u.i})
+				}
+				daUnits = daUnits[k:]
+				a.More = append(a.More, more)
+			}
+			// adversarial shape of such a burst: data first, the headers that make it applicable in later DA heights
+			if len(a.More) > 0 && rng.Intn(2) == 0 {
+				var ds, hs []world.Item
+				for _, it := range a.DA {
+					if it.D {
+						ds = append(ds, it)
+					} else {
+						hs = append(hs, it)
+					}
+				}
+				for _, more := range a.More {
+					for _, it := range more {
+						if it.D {
+							ds = append(ds, it)
+						} else {
+							hs = append(hs, it)
+						}
+					}
+				}
+				sort.SliceStable(hs, func(x, y int) bool { return hs[x].I < hs[y].I })
+				if len(ds) > 0 && len(hs) > 0 {
+					a.DA = ds
+					a.More = nil
+					for _, hIt := range hs {
+						a.More = append(a.More, []world.Item{hIt})
+					}
+				}
+			}
+			if rng.Intn(3) > 0 {
+				a.StopAtExec = 1 + rng.Intn(3)
+			}
+			daActs = append(daActs, a)
+		} else {
+			daActs = append(daActs, a)
+		}
 		if rng.Intn(6) == 0 {
 			daActs = append(daActs, world.Action{Kind: "da"}) // an empty DA height
 		}
@@ -280,6 +330,9 @@ func nonTrivial(s Sched) bool {
 		case "restart":
 			return true
 		}
+		if a.NoBarrier {
+			return true
+		}
 		seen[k] = true
 	}
 	return false
@@ -310,7 +363,7 @@ func RunSched(r *vk.Run, p *world.Produced, s Sched, withCacheDir bool) {
 	ctx := context.Background()
 	root := ""
 	for _, a := range s.Actions {
-		if a.Kind == "restart" {
+		if a.Kind == "restart" || a.NoBarrier {
 			withCacheDir = true // a clean stop saves the caches; it needs a directory to save them to
 		}
 	}
@@ -340,6 +393,9 @@ func RunSched(r *vk.Run, p *world.Produced, s Sched, withCacheDir bool) {
 			break
 		}
 		r.Count("events_delivered", 1)
+		if a.NoBarrier {
+			r.Count("stops_with_events_in_flight", 1)
+		}
 		h, probs := monitors.CheckFullNode(ctx, f, prev, false, r.Hit)
 		prev = h
 		for _, pr := range probs {
@@ -348,6 +404,13 @@ func RunSched(r *vk.Run, p *world.Produced, s Sched, withCacheDir bool) {
 		}
 		if len(viol) > 0 {
 			break
+		}
+	}
+	if len(viol) == 0 && f.Restarts > 0 {
+		// whatever a stop dropped from the hand-off channels is still on the DA layer: one more complete scan
+		if err := f.Do(world.Action{Kind: "scan"}); err != nil && err != world.ErrWatchdog {
+			viol = append(viol, "final scan: "+err.Error())
+			onlyConverged = false
 		}
 	}
 	if len(viol) == 0 {
@@ -456,6 +519,58 @@ func Run(r *vk.Run) {
 			id++
 		}
 	}
+	// (2b) crafted in-flight stops: blocks 0..j-1 are applied; then one scan finds, in four fresh DA heights,
+	// block j | the data of block j+2 | block j+1 | the header of block j+2, while the consumer is slow; the node
+	// is stopped cleanly right after the second of these applications made its state durable, restarted, and must
+	// still reach everything that is on the DA layer. Which events are still queued at the stop is up to the
+	// real select of the sync loop.
+	for c := 0; c < r.N(12, 60); c++ {
+		n := 6 + rng.Intn(5)
+		shape := randShape(rng, n, false)
+		if c%2 == 0 {
+			shape = strings.Repeat("ex", n/2) // alternating: every second position is the interesting one
+		}
+		p, err := world.ProduceChain(ctx, buildSpec(shape, fmt.Sprintf("f%d", c)), keys)
+		if err != nil {
+			r.Violation("producer", "could not produce chain "+shape+": "+err.Error(), nil)
+			return
+		}
+		for j := 0; j+2 < len(p.Heights); j++ {
+			// the interesting position: block j+1 is empty (its header alone makes it applicable, through the header
+			// channel) and block j+2 has data (which then sits in the other channel, found at a lower DA height)
+			reps := r.N(1, 3)
+			if len(p.Txs[j+1]) == 0 && len(p.Txs[j+2]) > 0 {
+				reps = r.N(6, 20)
+			}
+			for rep := 0; rep < reps; rep++ {
+				sc := Sched{ID: id, Chain: 2000 + c, Shape: shape + "(in-flight stop)"}
+				id++
+				for i := 0; i < j; i++ {
+					sc.Actions = append(sc.Actions, world.Action{Kind: "ch-h", I: i})
+					if len(p.Txs[i]) > 0 {
+						sc.Actions = append(sc.Actions, world.Action{Kind: "ch-d", I: i})
+					}
+				}
+				blockItems := func(i int) []world.Item {
+					it := []world.Item{{I: i}}
+					if len(p.Txs[i]) > 0 {
+						it = append(it, world.Item{D: true, I: i})
+					}
+					return it
+				}
+				burst := world.Action{Kind: "da", NoBarrier: true, StopAtExec: 1 + rng.Intn(2), DA: blockItems(j)}
+				if len(p.Txs[j+2]) > 0 {
+					burst.More = append(burst.More, []world.Item{{D: true, I: j + 2}})
+				}
+				burst.More = append(burst.More, blockItems(j+1), []world.Item{{I: j + 2}})
+				sc.Actions = append(sc.Actions, burst)
+				for i := j + 3; i < len(p.Heights); i++ {
+					sc.Actions = append(sc.Actions, world.Action{Kind: "da", DA: blockItems(i)})
+				}
+				jobs = append(jobs, job{p, sc, true})
+			}
+		}
+	}
 	// (3) trigger region: repeated tx lists
 	nRep := r.N(10, 80)
 	for c := 0; c < nRep; c++ {
@@ -487,4 +602,5 @@ func Run(r *vk.Run) {
 	}
 	close(ch)
 	wg.Wait()
+	backlog(r)
 }
